@@ -43,7 +43,9 @@ Inductive c10op :=
 | OpUniqueCounts
 | OpNonzero
 | OpArgwhere
-| OpWhere.
+| OpWhere
+| OpSortArgwhere (axis : Z) (desc : bool).   (* argwhere(sort(x, axis, descending)): an order-dependent
+                                                observer of the raw sort result *)
 
 (* what the implementation returned *)
 Inductive c10res :=
@@ -77,6 +79,11 @@ Definition spec_out (x : coo Z) (op : c10op) : outcome :=
   | OpUniqueCounts => let '(a, b) := np_unique_counts_arr d in OPair a b
   | OpNonzero | OpWhere => if c_fill x =? 0 then OCols (np_nonzero d) else OExc ValueError
   | OpArgwhere => if c_fill x =? 0 then OIdx (np_argwhere d) else OExc ValueError
+  | OpSortArgwhere axis desc =>
+    match np_sort_axis d axis desc with
+    | Ok d' => if c_fill x =? 0 then OIdx (np_argwhere d') else OExc ValueError
+    | Raise e => OExc e
+    end
   end.
 
 Inductive mout :=
@@ -95,12 +102,13 @@ Definition model_out (x : coo Z) (op : c10op) : mout :=
   | OpNonzero => MCols (ss_nonzero x)
   | OpWhere => MCols (ss_where1 x)
   | OpArgwhere => MIdx (ss_argwhere x)
+  | OpSortArgwhere axis desc => MIdx (y <- ss_sort x axis desc ;; ss_argwhere y)
   end.
 
 Definition axis_oob (x : coo Z) (op : c10op) : bool :=
   let nd := Z.of_nat (length (c_shape x)) in
   match op with
-  | OpSort a _ | OpArg _ (Some a) _ => negb ((- nd <=? a) && (a <? nd))
+  | OpSort a _ | OpArg _ (Some a) _ | OpSortArgwhere a _ => negb ((- nd <=? a) && (a <? nd))
   | _ => false
   end.
 
@@ -138,7 +146,8 @@ Definition clause_of (x : coo Z) (op : c10op) : Z :=
   | OpArg _ _ _ => if unpruned x then 7 else 0                 (* arg_unpruned_tie_with_fill *)
   | OpUniqueValues => if unpruned x then 8 else 0              (* unique_values_unpruned *)
   | OpUniqueCounts => if unpruned x then 10 else 0             (* unique_counts_unpruned *)
-  | OpNonzero | OpArgwhere | OpWhere => if (c_fill x =? 0) && unpruned x then 11 else 0   (* nonzero_unpruned *)
+  | OpNonzero | OpArgwhere | OpWhere | OpSortArgwhere _ _ =>
+    if (c_fill x =? 0) && unpruned x then 11 else 0                                       (* nonzero_unpruned *)
   end.
 
 Definition res_wf (r : c10res) : bool := match r with RArr a => sarr_wfb a | _ => true end.
